@@ -1,6 +1,8 @@
 import Slock.Proofs.EngineClock
 import Slock.Proofs.EngineConsts
+import Slock.Proofs.EngineNotLate
 import Slock.Properties.C01
+import Slock.Properties.C03
 /-!
 # C05 — wait timeouts fire in [T, T+2 s], never early, never after a grant (second / minute units)
 
@@ -95,5 +97,175 @@ def s2 : DB := run (DB.init 100) [.lock H, .lock W, .tick, .tick]
 example : (opTick s2).2.map (fun r => (r.req, r.result)) = [(2, RESULT_TIMEOUT)] := by decide
 example : (run (DB.init 100) [.lock H, .lock W, .tick] |> opTick).2 = [] := by decide
 example : (timeoutPass1 { s2 with now := 103, tCheck := 104 } 103).2.map (·.cmd.req) = [2] := by decide
+
+
+/-! ## Not late — global
+
+The induction `C05_not_late_step_partial` left open: in EVERY reachable state of an operation sequence whose request
+ids are pairwise distinct (the property's own premise "RequestId is connection-level unique"), every queued request
+is scheduled for a second that is still ahead and not after its deadline. Hence no queued request has a deadline
+`≤ now`: a request whose deadline second has been swept is no longer queued, i.e. it has been answered. -/
+
+open Slock.C03 in
+theorem runOut_fst (db : DB) (ops : List Op) : (runOut db ops).1 = run db ops := by
+  unfold runOut run
+  have gen : ∀ (ops : List Op) (acc : DB × List Reply), (ops.foldl stepOut acc).1 = ops.foldl step acc.1 := by
+    intro ops
+    induction ops with
+    | nil => intro acc; rfl
+    | cons o os ih =>
+      intro acc
+      simp only [List.foldl_cons]
+      rw [ih]
+      have e : (stepOut acc o).1 = step acc.1 o := by cases o <;> simp only [stepOut, step]
+      rw [e]
+  exact gen ops (db, [])
+
+open Slock.C03 in
+theorem issued_append (a b : List Op) : issued (a ++ b) = issued a ++ issued b := by
+  induction a with
+  | nil => rfl
+  | cons o os ih => cases o <;> simp [issued, ih]
+
+theorem run_snoc (db : DB) (pre : List Op) (o : Op) : run db (pre ++ [o]) = step (run db pre) o := by
+  unfold run; simp [List.foldl_append]
+
+/-- key ids are pairwise distinct in every reachable state -/
+theorem reachable_KN (now : Nat) (ops : List Op) : KN (run (DB.init now) ops) := by
+  unfold run
+  have : ∀ (db : DB), KN db → KN (ops.foldl step db) := by
+    induction ops with
+    | nil => intro db h; exact h
+    | cons o os ih =>
+      intro db h
+      simp only [List.foldl_cons]
+      apply ih
+      cases o with
+      | lock c => exact opLock_cinv_kn db c h
+      | unlock c => exact opUnlock_kn db c h
+      | tick => exact (opTick_cons (0, 0) db h).1
+      | setLeader b => exact h.of_keys_eq rfl
+  exact this _ (by simp [KN, DB.init])
+
+open Slock.C03 in
+/-- queued ids are pairwise distinct when the issued ids are (conservation law of C03) -/
+theorem reachable_QU (now : Nat) (ops : List Op) (hu : ∀ x, (issued ops).count x ≤ 1) : QU (run (DB.init now) ops) := by
+  intro x
+  have h1 := conservation now ops x
+  have h2 := answered_nonneg x (runOut (DB.init now) ops).2
+  have h3 := hu x
+  rw [runOut_fst] at h1
+  omega
+
+open Slock.C03 in
+/-- every queued request sits under its own key and is scheduled for a second still ahead, in every reachable state
+of a sequence with pairwise distinct request ids -/
+theorem reachable_ahead (now : Nat) (ops : List Op) (hu : ∀ x, (issued ops).count x ≤ 1) :
+    KW (run (DB.init now) ops) ∧ WLB (run (DB.init now) ops) := by
+  have gen : ∀ (post pre : List Op), (∀ x, (issued (pre ++ post)).count x ≤ 1) →
+      KW (run (DB.init now) pre) ∧ WLB (run (DB.init now) pre) →
+      KW (run (DB.init now) (pre ++ post)) ∧ WLB (run (DB.init now) (pre ++ post)) := by
+    intro post
+    induction post with
+    | nil => intro pre _ h; simpa using h
+    | cons o os ih =>
+      intro pre hu h
+      rw [List.append_cons]
+      apply ih (pre ++ [o]) (by rw [← List.append_cons]; exact hu)
+      rw [run_snoc]
+      have hw := reachable_WInv now pre
+      cases o with
+      | lock c => exact ⟨opLock_KW _ c h.1, opLock_WLB _ c hw.1 h.2⟩
+      | unlock c => exact ⟨opUnlock_KW _ c h.1, opUnlock_WLB _ c h.2⟩
+      | tick =>
+        have hq : QU (run (DB.init now) pre) := by
+          apply reachable_QU
+          intro x
+          have := hu x
+          rw [issued_append, List.count_append] at this
+          omega
+        have := opTick_WLB _ (reachable_KN now pre) hq h.1 h.2
+        exact ⟨this.2.1, this.1⟩
+      | setLeader b =>
+        exact ⟨h.1.of_sub (fun _ _ hx => hx.of_keys_eq rfl), fun n w hx => h.2 n w (hx.of_keys_eq rfl)⟩
+  have h0 : WLB (run (DB.init now) []) := by
+    intro n w hw
+    obtain ⟨k, hk, _⟩ := hw
+    have hk' : k ∈ (DB.init now).keys := hk
+    simp [DB.init] at hk'
+  have := gen ops [] (by simpa using hu) ⟨KW.init now, h0⟩
+  simpa using this
+
+open Slock.C03 in
+/-- **Scheduled ahead, not after the deadline.** For every start time and every operation sequence with pairwise
+distinct request ids, in the reached state: the timeout check time is `now + 1`, and every queued request is scheduled
+for a second `visit` with `now + 1 ≤ visit ≤ deadline`. -/
+theorem C05_scheduled_ahead (now0 : Nat) (ops : List Op) (hu : ∀ x, (issued ops).count x ≤ 1) :
+    let db := run (DB.init now0) ops
+    db.tCheck = db.now + 1 ∧ ∀ w ∈ allW db, db.now + 1 ≤ w.sched.visit ∧ w.sched.visit ≤ w.timeoutT := by
+  intro db
+  have hw := reachable_WInv now0 ops
+  have ha := reachable_ahead now0 ops hu
+  refine ⟨hw.1, ?_⟩
+  intro w hm
+  obtain ⟨n, hn⟩ := waitAt_of_allW hm
+  exact ⟨ha.2 n w hn, (hw.2 w hm).1⟩
+
+open Slock.C03 in
+/-- **Not late.** No queued request has a deadline `≤ now`: once the sweep of the deadline second
+`t0 + T·unit + 1` (`C05_deadline`) has run, the request is no longer queued — it has been answered (TIMEOUT, a grant,
+or a cancel) by the end of that tick, i.e. within [T, T+2] seconds of being queued. -/
+theorem C05_not_late (now0 : Nat) (ops : List Op) (hu : ∀ x, (issued ops).count x ≤ 1) :
+    let db := run (DB.init now0) ops
+    ∀ w ∈ allW db, db.now < w.timeoutT := by
+  show ∀ w ∈ allW (run (DB.init now0) ops), (run (DB.init now0) ops).now < w.timeoutT
+  intro w hm
+  have := (C05_scheduled_ahead now0 ops hu).2 w hm
+  exact Nat.lt_of_lt_of_le this.1 this.2
+
+theorem exists_waiter_of_queued_pos (x : Rid) (ks : List Key) (h : 0 < queued x ks) :
+    ∃ k ∈ ks, ∃ w ∈ k.waiters, w.rid = x := by
+  induction ks with
+  | nil => simp [queued] at h
+  | cons k ks ih =>
+    rw [queued_cons] at h
+    by_cases hk : 0 < queuedIn x k
+    · unfold queuedIn at hk
+      have : 0 < (k.waiters.map Waiter.rid).count x := by omega
+      obtain ⟨w, hw, e⟩ := List.mem_map.mp (List.count_pos_iff.mp this)
+      exact ⟨k, by simp, w, hw, e⟩
+    · have := queuedIn_nonneg' x k
+      obtain ⟨k', hk', hw⟩ := ih (by omega)
+      exact ⟨k', List.mem_cons_of_mem _ hk', hw⟩
+
+open Slock.C03 in
+/-- **Answered by the deadline.** A request id issued exactly once has, in the reached state, either exactly one
+terminal reply, or none and it is still queued with its deadline strictly ahead of server time. -/
+theorem C05_answered_by_deadline (now0 : Nat) (ops : List Op) (hu : ∀ x, (issued ops).count x ≤ 1)
+    (x : Rid) (hx : (issued ops).count x = 1) :
+    answered x (runOut (DB.init now0) ops).2 = 1 ∨
+      (answered x (runOut (DB.init now0) ops).2 = 0 ∧
+        ∃ w ∈ allW (run (DB.init now0) ops), w.rid = x ∧ (run (DB.init now0) ops).now < w.timeoutT) := by
+  have hc := conservation now0 ops x
+  have hq := queued_nonneg x (runOut (DB.init now0) ops).1.keys
+  have ha := answered_nonneg x (runOut (DB.init now0) ops).2
+  by_cases h0 : queued x (runOut (DB.init now0) ops).1.keys = 0
+  · left; omega
+  · right
+    refine ⟨by omega, ?_⟩
+    have e := runOut_fst (DB.init now0) ops
+    rw [e] at h0 hq
+    obtain ⟨k, hk, w, hw, e⟩ := exists_waiter_of_queued_pos x (run (DB.init now0) ops).keys (by omega)
+    have hm : w ∈ allW (run (DB.init now0) ops) := mem_allW.mpr ⟨k, hk, hw⟩
+    exact ⟨w, hm, e, C05_not_late now0 ops hu w hm⟩
+
+/-! ### Non-vacuity of the global statement: the hypothesis holds for a sequence with a queued request, a timeout and a
+re-armed long wait; the request with T = 2 is queued up to the tick of its deadline second and gone after it -/
+def W9 : Cmd := { H with req := 3, lockId := 3, timeout := 30 }
+def opsNL : List Op := [.lock H, .lock W, .lock W9, .tick, .tick]
+example : ∀ x, (Slock.C03.issued opsNL).count x ≤ 1 := List.nodup_iff_count.mp (by decide)
+example : ((allW (run (DB.init 100) opsNL)).map (fun w => (w.cmd.req, w.timeoutT, w.sched.visit))) = [(2, 103, 103), (3, 131, 105)] := by decide
+example : (run (DB.init 100) opsNL).now = 102 := by decide
+example : ((allW (run (DB.init 100) (opsNL ++ [.tick]))).map (fun w => (w.cmd.req, w.timeoutT, w.sched.visit))) = [(3, 131, 105)] := by decide
 
 end Slock.C05
